@@ -1,5 +1,8 @@
 use core::ops::Bound::{Included, Unbounded};
-use std::{cmp::max, collections::BTreeMap};
+use std::{
+  cmp::{max, min},
+  collections::BTreeMap,
+};
 
 #[allow(unused_imports)]
 use log::{debug, error, info, trace, warn};
@@ -99,6 +102,10 @@ impl RtpsWriterProxy {
     }
   }
 
+  // How far ahead of ack_base do we keep track of changes that were declared
+  // not available.
+  const MAX_NOT_AVAILABLE_MARKERS_AHEAD: i64 = 4096;
+
   pub fn next_ack_nack_sequence_number(&mut self) -> i32 {
     let c = self.sent_ack_nack_count;
     self.sent_ack_nack_count += 1;
@@ -176,8 +183,18 @@ impl RtpsWriterProxy {
     let mut known_iter = known.iter();
     let mut known_head = known_iter.next();
 
-    // Iterate over all SequenceNumbers (indices) in the advertised range.
+    // Iterate over the SequenceNumbers (indices) in the advertised range, as far
+    // as the result can matter: an ACKNACK can report missing sequence numbers
+    // up to 256 from the first one. The advertised range comes from the wire
+    // and can be astronomical.
+    let mut stop_at: Option<SequenceNumber> = None;
     for s in relevant_interval {
+      if let Some(&first_missing) = missing_seqnums.first() {
+        let stop = *stop_at.get_or_insert(first_missing + SequenceNumber::new(256));
+        if s >= stop {
+          break;
+        }
+      }
       match known_head {
         None => missing_seqnums.push(s), // no known changes left => s is missing
         Some(known_sn) => {
@@ -279,11 +296,17 @@ impl RtpsWriterProxy {
         self.ack_base, remove_from, remove_until_before, self.remote_writer_guid
       );
     } else {
-      // TODO: This potentially generates a very large BTreeMap
-      for na in
-        SequenceNumber::range_inclusive(remove_from, remove_until_before - SequenceNumber::new(1))
-      {
-        self.changes.insert(na, None);
+      // The range comes from the wire and can be astronomical, so we note
+      // not_available markers only for a window ahead of what we have. Beyond
+      // that we keep asking, and are told again when we get there.
+      let window_end = self.ack_base + SequenceNumber::new(Self::MAX_NOT_AVAILABLE_MARKERS_AHEAD);
+      let remove_until_before = min(remove_until_before, window_end);
+      if remove_from < remove_until_before {
+        for na in
+          SequenceNumber::range_inclusive(remove_from, remove_until_before - SequenceNumber::new(1))
+        {
+          self.changes.insert(na, None);
+        }
       }
     }
   }
